@@ -25,7 +25,7 @@ ASSUMPTIONS = ['CODATA exact SI constants for e, k_B, N_A']
 
 def pre_build():
     import translate
-    return [translate.gen_formulas_c14(), translate.gen_amp_shape()]
+    return [translate.gen_formulas_c14(), translate.gen_amp_shape(), translate.gen_meanfreq()]
 
 
 def gen_cases(rng, tier):
